@@ -683,6 +683,305 @@ def expected_scalar_args(structs, k, layout, v, ref_hex):
     return out
 
 
+STAT_KEYS = ("structs", "values", "write_checks_spec", "flatten_checks_legacy", "read_checks", "receive_buffers_checked", "option_param_checks")
+
+def same(a, b):
+    if isinstance(b, float) and isinstance(a, (int, float)):
+        return a == b or (a != a and b != b)
+    if isinstance(b, dict):
+        return isinstance(a, dict) and set(a) == set(b) and all(same(a[k], b[k]) for k in b)
+    if isinstance(b, list):
+        return isinstance(a, list) and len(a) == len(b) and all(same(x, y) for x, y in zip(a, b))
+    if isinstance(b, bool) or isinstance(a, bool):
+        return a is b or a == b and type(a) == type(b)
+    return a == b
+
+
+def arm_mismatch(a, b):
+    """does the value read back disagree with the stored one about *which arm* of some option is live?"""
+    if (a is None) != (b is None):
+        return True
+    if isinstance(b, dict) and isinstance(a, dict):
+        return any(arm_mismatch(a.get(k), b[k]) for k in b)
+    if isinstance(b, list) and isinstance(a, list) and len(a) == len(b):
+        return any(arm_mismatch(x, y) for x, y in zip(a, b))
+    return False
+
+
+def run_batch(seedkey, bi, per=14, nval=4, struct_gen=None):
+    rng = random.Random("%s/%s" % (seedkey, bi))
+    structs = (struct_gen or gen_structs)(rng, per)
+    d = toolrun.fresh_dir(toolrun.workdir("c08", "b%d" % bi))
+    res = {"viol": [], "inconc": [], "st": dict.fromkeys(STAT_KEYS, 0), "shapes": set()}
+    values = []
+    for k, fields in enumerate(structs):
+        ctx = {"ptr": 64 * k}
+        values.append([[gen_value(rng, structs, f, ctx) for f in fields] for _ in range(nval)])
+    pls = opt_payloads(structs)
+    ovalues = []
+    for inner in pls:
+        ctx = {"ptr": 0}
+        ovalues.append([None] + [("some", gen_value(rng, structs, inner, ctx)) for _ in range(3)])
+    open(os.path.join(d, "omirror.rs"), "w").write(opt_mirror_source(structs, ovalues))
+    rc, o, e = run(["rustc", "--edition", "2021", "-O", "-o", os.path.join(d, "omirror"), os.path.join(d, "omirror.rs")], timeout=300)
+    if rc != 0:
+        res["inconc"].append("option mirror does not compile: " + e[:400])
+        return res
+    rc, o, e = run([os.path.join(d, "omirror")], timeout=60)
+    olayout = json.loads(o)
+    # ground truth: rustc lays the mirrors out
+    open(os.path.join(d, "mirror.rs"), "w").write(mirror_source(structs, values))
+    rc, o, e = run(["rustc", "--edition", "2021", "-O", "-o", os.path.join(d, "mirror"), os.path.join(d, "mirror.rs")], timeout=300)
+    if rc != 0:
+        res["inconc"].append("mirror does not compile: " + e[:400])
+        return res
+    rc, o, e = run([os.path.join(d, "mirror")], timeout=60)
+    layout = json.loads(o)
+    # real wasm32: calling convention of every take/give from rustc's IR, layout from the instantiated module
+    import wasm32
+    open(os.path.join(d, "probe.rs"), "w").write(probe_source(structs))
+    rc, e = wasm32.compile_nostd(os.path.join(d, "probe.rs"), os.path.join(d, "probe"))
+    if rc != 0:
+        res["inconc"].append("wasm32 probe does not compile: " + e[-400:])
+        return res
+    abi = parse_ir(open(os.path.join(d, "probe.ll")).read())
+    open(os.path.join(d, "lay.mjs"), "w").write(WASM_LAYOUT_JS)
+    rc, o, e = run(["node", os.path.join(d, "lay.mjs"), os.path.join(d, "probe.wasm"), json.dumps([len(f) for f in structs])], timeout=60)
+    if rc != 0:
+        res["inconc"].append("cannot instantiate the wasm32 probe: " + e[-300:])
+        return res
+    real = json.loads(o)
+    for k in range(len(structs)):
+        lay = layout["S%d" % k]
+        rl = real["S%d" % k]
+        if (lay["size"], lay["align"], [f[0] for f in lay["fields"]]) != (rl["size"], rl["align"], rl["offsets"]):
+            res["inconc"].append("host mirror layout of S%d differs from the real wasm32 layout (harness): %s vs %s" % (k, lay, rl))
+            return res
+        if k not in abi or "param" not in abi[k] or "ret" not in abi[k]:
+            res["inconc"].append("could not read the wasm32 calling convention of S%d from the IR" % k)
+            return res
+    src = os.path.join(d, "lib.rs")
+    open(src, "w").write(bridge_source(structs))
+    for abi_name in ("spec", "legacy"):
+        out = os.path.join(d, abi_name)
+        rc, o, e = toolrun.run_tool("js", src, out, configs=["js.abi=%s" % abi_name])
+        kind, det = toolrun.classify_tool(rc, e)
+        if kind != "ok":
+            res["inconc"].append("tool js (%s): %s %s" % (abi_name, kind, str(det)[:200]))
+            continue
+        cases = []
+        for k, fields in enumerate(structs):
+            lay = layout["S%d" % k]
+            sps = slice_paths(structs, k, layout)
+            for j, v in enumerate(values[k]):
+                cases.append({"id": "S%d#%d" % (k, j), "k": k, "struct": "S%d" % k, "size": lay["size"], "js": js_lit(structs, ("struct", k), v),
+                              "scalar_ret": scalar_return(structs, k, layout, lay["values"][j]),
+                              "bytes": lay["values"][j], "slicefields": [[off, esz] for off, esz, p, f in sps],
+                              "slicedata": [[off, slice_bytes(f, value_at(v, p)).hex()] for off, esz, p, f in sps]})
+        fieldnames = {"S%d" % k: {"f%d" % i: 1 for i in range(len(f))} for k, f in enumerate(structs)}
+        optcases = []
+        for j, inner in enumerate(pls):
+            ol = olayout["O%d" % j]
+            for vi, v in enumerate(ovalues[j]):
+                optcases.append({"id": "O%d#%d" % (j, vi), "j": j, "size": ol["size"], "bytes": ol["values"][vi],
+                                 "js": "null" if v is None else js_lit(structs, inner, v[1]), "struct": "S%d" % inner[1] if inner[0] == "struct" else None})
+        json.dump({"abi": abi_name, "cases": cases, "optcases": optcases, "fieldnames": fieldnames}, open(os.path.join(out, "vf_data.json"), "w"))
+        open(os.path.join(out, "diplomat-wasm.mjs"), "w").write(STUB)
+        open(os.path.join(out, "vf_driver.mjs"), "w").write(DRIVER)
+        rc, o, e = run(["node", os.path.join(out, "vf_driver.mjs")], timeout=120)
+        if rc != 0:
+            res["inconc"].append("node driver failed (%s): %s" % (abi_name, e[-400:]))
+            continue
+        allrecs = json.loads(o.strip().splitlines()[-1])
+        recs = {r["id"]: r for r in allrecs["structs"]}
+        orecs = {r["id"]: r for r in allrecs["options"]}
+        for k, fields in enumerate(structs):
+            lay = layout["S%d" % k]
+            if abi_name == "spec":
+                res["st"]["structs"] += 1
+                res["shapes"].add(tuple(f[0] + (":" + str(f[1]) if f[0] in ("prim", "slice") else (":" + f[1][0] if f[0] == "opt" else "")) for f in fields))
+            sps = slice_paths(structs, k, layout)
+            for j, v in enumerate(values[k]):
+                cid = "S%d#%d" % (k, j)
+                r = recs[cid]
+                w = {"abi": abi_name, "struct": "S%d" % k, "rust": "pub struct S%d { %s }" % (k, ", ".join("f%d: %s" % (i, rs_field_ty(structs, f, False)) for i, f in enumerate(fields))),
+                     "value_js": js_lit(structs, ("struct", k), v), "rustc_layout": {"size": lay["size"], "align": lay["align"], "fields(offset,size,align)": lay["fields"]},
+                     "rustc_bytes": lay["values"][j], "dir": out}
+                if "error" in r:
+                    res["viol"].append((cid, abi_name, "generated JS throws: " + r["error"][:300], w))
+                    continue
+                if abi_name == "spec":
+                    res["st"]["values"] += 1
+                # ---- JS -> Rust
+                t = r.get("take")
+                direct_param = (abi[k]["param"] == "direct")      # real wasm32 (spec) convention; the legacy doc states the same single-scalar rule
+                direct_ret = (abi[k]["ret"] == "direct")
+                if not t:
+                    res["viol"].append((cid, abi_name, "the export Hub_take%d was never called" % k, w))
+                elif abi_name == "spec" and direct_param:
+                    res["st"]["write_checks_spec"] += 1
+                    sc = scalar_return(structs, k, layout, lay["values"][j])
+                    got1 = t["args"][1:]
+                    alloc_ptrs = [a[0] for a in r["take_allocs"]]
+                    if len(got1) == 1 and got1[0] in alloc_ptrs and (sc is None or got1[0] != sc):
+                        res["viol"].append((cid, abi_name, "JS -> Rust: rustc passes this single-scalar struct by value (one wasm scalar), the generated JS passes a pointer to a %s-byte buffer" % (
+                            [a[1] for a in r["take_allocs"] if a[0] == got1[0]][0]), dict(w, js_args=got1, rustc_convention=abi[k]), "scalar-struct-indirect"))
+                    elif len(got1) != 1:
+                        res["viol"].append((cid, abi_name, "JS -> Rust: %d arguments passed for a struct rustc takes as one scalar" % len(got1), dict(w, js_args=got1)))
+                    else:
+                        gv = got1[0]
+                        g = int(gv[4:]) if isinstance(gv, str) and gv.startswith("big:") else (int(gv) if isinstance(gv, bool) else gv)
+                        want = int(sc) if isinstance(sc, str) else sc
+                        okv = (g == want) if isinstance(want, float) else (isinstance(g, (int, float)) and int(g) & 0xFFFFFFFFFFFFFFFF == int(want) & 0xFFFFFFFFFFFFFFFF) or \
+                            (isinstance(g, (int, float)) and int(g) & 0xFFFFFFFF == int(want) & 0xFFFFFFFF and abs(int(want)) < (1 << 32))
+                        if isinstance(want, float):
+                            import struct as st_
+                            okv = g == want or st_.unpack("<f", st_.pack("<f", g))[0] == want
+                        if not okv:
+                            res["viol"].append((cid, abi_name, "JS -> Rust: scalar argument is %r, rustc's value is %r" % (gv, sc), dict(w, js_args=got1)))
+                elif abi_name == "spec":
+                    res["st"]["write_checks_spec"] += 1
+                    if "bytes" not in t or t.get("ptr") not in [a[0] for a in r["take_allocs"]]:
+                        res["viol"].append((cid, abi_name, "JS -> Rust: rustc takes this struct indirectly (pointer to its bytes), the generated JS passes %s" % t["args"][1:], dict(w, rustc_convention=abi[k])))
+                        continue
+                    errs = compare_bytes(structs, k, layout, v, t["bytes"], lay["values"][j])
+                    for (off, esz, p, f), (sp, sl, sdata) in zip(sps, t["slices"]):
+                        want = slice_bytes(f, value_at(v, p)).hex()
+                        if sl and sdata != want:
+                            errs.append("slice f%s: memory at the written pointer holds %s, expected %s" % (p, sdata[:40], want[:40]))
+                    al = [a for a in r["take_allocs"] if a[0] == t["ptr"]]
+                    if not al or al[0][1] != lay["size"] or al[0][2] != lay["align"]:
+                        errs.append("argument buffer allocated as (size, align) = %s, rustc says (%d, %d)" % (al[0][1:] if al else None, lay["size"], lay["align"]))
+                    if al and [f for f in r["take_frees"] if f[0] == t["ptr"]] != [[t["ptr"], lay["size"], lay["align"]]]:
+                        errs.append("argument buffer freed as %s" % [f for f in r["take_frees"] if f[0] == t["ptr"]])
+                    w2 = dict(w, js_bytes=t["bytes"])
+                    for m in errs[:2]:
+                        res["viol"].append((cid, abi_name, "JS -> Rust: " + m, w2))
+                else:
+                    res["st"]["flatten_checks_legacy"] += 1
+                    exp = expected_scalar_args(structs, k, layout, v, lay["values"][j])
+                    got = t["args"][1:]
+                    w2 = dict(w, js_args=got, model_args=[list(x) for x in exp])
+                    if len(got) != len(exp):
+                        res["viol"].append((cid, abi_name, "JS -> Rust: %d flattened arguments passed, the legacy wasm ABI takes %d (%s)" % (len(got), len(exp), [x[0] for x in exp]), w2))
+                    else:
+                        for (path, ev), gv in zip(exp, got):
+                            if path == "pad" or ev == "anyptr":
+                                continue
+                            import struct as st_
+                            if isinstance(ev, tuple) and ev[0] == "f32":
+                                ok = isinstance(gv, (int, float)) and (st_.unpack("<f", st_.pack("<f", gv))[0] == ev[1] or (gv != gv and ev[1] != ev[1]))
+                            elif isinstance(ev, tuple) and ev[0] == "int":
+                                g = gv
+                                if isinstance(gv, str) and gv.startswith("big:"):
+                                    g = int(gv[4:])
+                                elif isinstance(gv, bool):
+                                    g = int(gv)
+                                ok = (isinstance(g, int) or (isinstance(g, float) and g == int(g))) and (int(g) & ((1 << (8 * ev[1])) - 1)) == ev[2]
+                            else:
+                                ok = (gv == ev) or (ev != ev and gv != gv)
+                            if not ok:
+                                res["viol"].append((cid, abi_name, "JS -> Rust: flattened argument for %s is %r, rustc's value is %r" % (path, gv, ev), w2))
+                                break
+                # ---- Rust -> JS
+                res["st"]["read_checks"] += 1
+                expj = js_expected(structs, ("struct", k), v)
+                res["st"]["receive_buffers_checked"] += 1
+                ga = [a for a in r.get("give_allocs", []) if a[0] == r.get("give_retptr")]
+                if direct_ret and not r.get("give_direct"):
+                    res["viol"].append((cid, abi_name, "Rust -> JS: rustc returns this single-scalar struct by value, the generated JS passes a %s-byte receive buffer as an extra first argument" % (
+                        ga[0][1] if ga else "?"), dict(w, rustc_convention=abi[k]), "scalar-struct-indirect"))
+                    continue
+                if not direct_ret and r.get("give_direct"):
+                    res["viol"].append((cid, abi_name, "Rust -> JS: rustc returns this struct through a return slot, the generated JS passes none", dict(w, rustc_convention=abi[k])))
+                    continue
+                if not same(r.get("give"), expj):
+                    tag = None
+                    if direct_ret and len(fields) == 1:
+                        leaf = fields[0]
+                        while leaf[0] == "struct" and len(structs[leaf[1]]) == 1:
+                            leaf = structs[leaf[1]][0]
+                        gv = r.get("give")
+                        while isinstance(gv, dict) and len(gv) == 1:
+                            gv = list(gv.values())[0]
+                        if leaf == ("prim", "bool") and gv in (0, 1):
+                            tag = "scalar-bool"
+                        elif leaf[0] == "prim" and leaf[1] in ("u32", "usize", "DiplomatChar") and isinstance(gv, int) and gv < 0:
+                            tag = "large-u32"
+                        elif leaf == ("prim", "u64") and isinstance(gv, str) and gv.startswith("big:-"):
+                            tag = "large-u64"
+                    if tag is None and arm_mismatch(r.get("give"), expj):
+                        tag = "option-arm"
+                    res["viol"].append((cid, abi_name, "Rust -> JS: reading rustc's bytes gives %s, the stored value is %s" % (json.dumps(r.get("give"))[:300], json.dumps(expj)[:300]), w, tag))
+                if not direct_ret and (not ga or ga[0][1] != lay["size"] or ga[0][2] != lay["align"]):
+                    res["viol"].append((cid, abi_name, "Rust -> JS: receive buffer allocated as (size, align) = %s, rustc says (%d, %d)" % (ga[0][1:] if ga else None, lay["size"], lay["align"]), w))
+        # ---- Option<T> parameters and returns
+        for j, inner in enumerate(pls):
+            ol = olayout["O%d" % j]
+            isz = ol["inner_size"]
+            for vi, v in enumerate(ovalues[j]):
+                r = orecs["O%d#%d" % (j, vi)]
+                ty = rs_field_ty(structs, inner, False)
+                w = {"abi": abi_name, "method": "fn opt%d(&self, x: Option<%s>) -> Option<%s>" % (j, ty, ty), "value_js": "null" if v is None else js_lit(structs, inner, v[1]),
+                     "rustc_layout": {k2: ol[k2] for k2 in ("size", "align", "inner_size")}, "rustc_bytes": ol["values"][vi], "dir": out}
+                res["st"]["option_param_checks"] += 1
+                if "error" in r:
+                    res["viol"].append(("O%d#%d" % (j, vi), abi_name, "generated JS throws: " + r["error"][:300], w, "option-param" if abi_name == "spec" else None))
+                    continue
+                ref = ol["values"][vi]
+                if abi_name == "spec":
+                    if "bytes" not in r:
+                        res["viol"].append(("O%d#%d" % (j, vi), abi_name, "JS -> Rust: Option<%s> is passed indirectly by rustc (pointer to {payload, is_ok}); the generated JS passes %r as that argument" % (
+                            ty, (r.get("args") or [None, None, None])[2] if len(r.get("args") or []) > 2 else r.get("args")), dict(w, js_args=r.get("args")), "option-param"))
+                    else:
+                        errs = []
+                        if r["bytes"][2 * isz:2 * isz + 2] != ref[2 * isz:2 * isz + 2]:
+                            errs.append("is_ok byte at offset %d is %s, rustc has %s" % (isz, r["bytes"][2 * isz:2 * isz + 2], ref[2 * isz:2 * isz + 2]))
+                        if v is not None and inner[0] != "struct" and r["bytes"][:2 * isz] != ref[:2 * isz]:
+                            errs.append("payload bytes are %s, rustc has %s" % (r["bytes"][:2 * isz], ref[:2 * isz]))
+                        if v is not None and inner[0] == "struct":
+                            errs += compare_bytes(structs, inner[1], layout, v[1], r["bytes"], ref)
+                        al = [a for a in r["allocs"] if a[0] == r["ptr"]]
+                        if not al or al[0][1] < ol["size"] or al[0][2] != ol["align"]:
+                            errs.append("argument buffer allocated as (size, align) = %s, the option needs (%d, %d)" % (al[0][1:] if al else None, ol["size"], ol["align"]))
+                        for m in errs[:2]:
+                            res["viol"].append(("O%d#%d" % (j, vi), abi_name, "JS -> Rust: Option<%s>: %s" % (ty, m), dict(w, js_bytes=r["bytes"]), "option-param"))
+                else:
+                    # legacy: union as inner_size/align slots of `align` bytes, then the flag, then i8 padding
+                    import struct as st_
+                    raw = bytes.fromhex(ref)
+                    al_ = ol["align"]
+                    exp = [int.from_bytes(raw[q:q + al_], "little") for q in range(0, isz, al_)] + [raw[isz]] + [0] * (ol["size"] - isz - 1)
+                    got = (r.get("args") or [])[2:]
+                    gnorm = []
+                    for gv in got:
+                        g = int(gv[4:]) if isinstance(gv, str) and gv.startswith("big:") else (int(gv) if isinstance(gv, bool) else gv)
+                        gnorm.append(g)
+                    ok = len(gnorm) == len(exp)
+                    if ok and v is not None:
+                        for q, (g, e_) in enumerate(zip(gnorm, exp)):
+                            mask = (1 << (8 * (al_ if q < isz // al_ else 1))) - 1
+                            if not isinstance(g, (int, float)) or (int(g) & mask) != e_:
+                                ok = q >= isz // al_ + 1   # padding values do not matter
+                                if not ok:
+                                    break
+                    elif ok:
+                        ok = isinstance(gnorm[isz // al_], (int, float)) and int(gnorm[isz // al_]) == 0
+                    if not ok:
+                        res["viol"].append(("O%d#%d" % (j, vi), abi_name, "JS -> Rust: Option<%s> flattened as %s, the legacy ABI takes %s (union slots, flag, i8 padding)" % (ty, got, exp), w))
+                # return direction
+                expj = None if v is None else js_expected(structs, inner, v[1])
+                if not same(r.get("got"), expj):
+                    res["viol"].append(("O%d#%d" % (j, vi), abi_name, "Rust -> JS: Option<%s> read back as %s, the stored value is %s" % (ty, json.dumps(r.get("got"))[:200], json.dumps(expj)[:200]), w,
+                                        "option-arm" if arm_mismatch(r.get("got"), expj) else None))
+                ga = [a for a in r.get("allocs", []) if a[0] == r.get("retptr")]
+                # observation, not part of the property (which speaks of structs): the backend sizes this buffer as payload + 1 without
+                # padding to the alignment (Option<u32>: 5 bytes for an 8-byte value); only the part JS reads is required here
+                if not ga or ga[0][1] < isz + 1 or ga[0][2] != ol["align"]:
+                    res["viol"].append(("O%d#%d" % (j, vi), abi_name, "Rust -> JS: Option<%s> receive buffer allocated as %s, too small or misaligned for (payload %d + flag, align %d)" % (ty, ga[0][1:] if ga else None, isz, ol["align"]), w))
+    return res
+
+
 def main(tier, seed):
     chk = Check("C08", tier, seed, "exploration")
     thorough = tier == "thorough"
@@ -693,288 +992,7 @@ def main(tier, seed):
     stats = {"structs": 0, "values": 0, "write_checks_spec": 0, "flatten_checks_legacy": 0, "read_checks": 0, "receive_buffers_checked": 0, "option_param_checks": 0}
     shapes = set()
 
-    def one(bi):
-        rng = random.Random("c08/%s/%s" % (seed, bi))
-        structs = gen_structs(rng, per)
-        d = toolrun.fresh_dir(toolrun.workdir("c08", "b%d" % bi))
-        res = {"viol": [], "inconc": [], "st": dict.fromkeys(stats, 0), "shapes": set()}
-        values = []
-        for k, fields in enumerate(structs):
-            ctx = {"ptr": 64 * k}
-            values.append([[gen_value(rng, structs, f, ctx) for f in fields] for _ in range(nval)])
-        pls = opt_payloads(structs)
-        ovalues = []
-        for inner in pls:
-            ctx = {"ptr": 0}
-            ovalues.append([None] + [("some", gen_value(rng, structs, inner, ctx)) for _ in range(3)])
-        open(os.path.join(d, "omirror.rs"), "w").write(opt_mirror_source(structs, ovalues))
-        rc, o, e = run(["rustc", "--edition", "2021", "-O", "-o", os.path.join(d, "omirror"), os.path.join(d, "omirror.rs")], timeout=300)
-        if rc != 0:
-            res["inconc"].append("option mirror does not compile: " + e[:400])
-            return res
-        rc, o, e = run([os.path.join(d, "omirror")], timeout=60)
-        olayout = json.loads(o)
-        # ground truth: rustc lays the mirrors out
-        open(os.path.join(d, "mirror.rs"), "w").write(mirror_source(structs, values))
-        rc, o, e = run(["rustc", "--edition", "2021", "-O", "-o", os.path.join(d, "mirror"), os.path.join(d, "mirror.rs")], timeout=300)
-        if rc != 0:
-            res["inconc"].append("mirror does not compile: " + e[:400])
-            return res
-        rc, o, e = run([os.path.join(d, "mirror")], timeout=60)
-        layout = json.loads(o)
-        # real wasm32: calling convention of every take/give from rustc's IR, layout from the instantiated module
-        import wasm32
-        open(os.path.join(d, "probe.rs"), "w").write(probe_source(structs))
-        rc, e = wasm32.compile_nostd(os.path.join(d, "probe.rs"), os.path.join(d, "probe"))
-        if rc != 0:
-            res["inconc"].append("wasm32 probe does not compile: " + e[-400:])
-            return res
-        abi = parse_ir(open(os.path.join(d, "probe.ll")).read())
-        open(os.path.join(d, "lay.mjs"), "w").write(WASM_LAYOUT_JS)
-        rc, o, e = run(["node", os.path.join(d, "lay.mjs"), os.path.join(d, "probe.wasm"), json.dumps([len(f) for f in structs])], timeout=60)
-        if rc != 0:
-            res["inconc"].append("cannot instantiate the wasm32 probe: " + e[-300:])
-            return res
-        real = json.loads(o)
-        for k in range(len(structs)):
-            lay = layout["S%d" % k]
-            rl = real["S%d" % k]
-            if (lay["size"], lay["align"], [f[0] for f in lay["fields"]]) != (rl["size"], rl["align"], rl["offsets"]):
-                res["inconc"].append("host mirror layout of S%d differs from the real wasm32 layout (harness): %s vs %s" % (k, lay, rl))
-                return res
-            if k not in abi or "param" not in abi[k] or "ret" not in abi[k]:
-                res["inconc"].append("could not read the wasm32 calling convention of S%d from the IR" % k)
-                return res
-        src = os.path.join(d, "lib.rs")
-        open(src, "w").write(bridge_source(structs))
-        for abi_name in ("spec", "legacy"):
-            out = os.path.join(d, abi_name)
-            rc, o, e = toolrun.run_tool("js", src, out, configs=["js.abi=%s" % abi_name])
-            kind, det = toolrun.classify_tool(rc, e)
-            if kind != "ok":
-                res["inconc"].append("tool js (%s): %s %s" % (abi_name, kind, str(det)[:200]))
-                continue
-            cases = []
-            for k, fields in enumerate(structs):
-                lay = layout["S%d" % k]
-                sps = slice_paths(structs, k, layout)
-                for j, v in enumerate(values[k]):
-                    cases.append({"id": "S%d#%d" % (k, j), "k": k, "struct": "S%d" % k, "size": lay["size"], "js": js_lit(structs, ("struct", k), v),
-                                  "scalar_ret": scalar_return(structs, k, layout, lay["values"][j]),
-                                  "bytes": lay["values"][j], "slicefields": [[off, esz] for off, esz, p, f in sps],
-                                  "slicedata": [[off, slice_bytes(f, value_at(v, p)).hex()] for off, esz, p, f in sps]})
-            fieldnames = {"S%d" % k: {"f%d" % i: 1 for i in range(len(f))} for k, f in enumerate(structs)}
-            optcases = []
-            for j, inner in enumerate(pls):
-                ol = olayout["O%d" % j]
-                for vi, v in enumerate(ovalues[j]):
-                    optcases.append({"id": "O%d#%d" % (j, vi), "j": j, "size": ol["size"], "bytes": ol["values"][vi],
-                                     "js": "null" if v is None else js_lit(structs, inner, v[1]), "struct": "S%d" % inner[1] if inner[0] == "struct" else None})
-            json.dump({"abi": abi_name, "cases": cases, "optcases": optcases, "fieldnames": fieldnames}, open(os.path.join(out, "vf_data.json"), "w"))
-            open(os.path.join(out, "diplomat-wasm.mjs"), "w").write(STUB)
-            open(os.path.join(out, "vf_driver.mjs"), "w").write(DRIVER)
-            rc, o, e = run(["node", os.path.join(out, "vf_driver.mjs")], timeout=120)
-            if rc != 0:
-                res["inconc"].append("node driver failed (%s): %s" % (abi_name, e[-400:]))
-                continue
-            allrecs = json.loads(o.strip().splitlines()[-1])
-            recs = {r["id"]: r for r in allrecs["structs"]}
-            orecs = {r["id"]: r for r in allrecs["options"]}
-            for k, fields in enumerate(structs):
-                lay = layout["S%d" % k]
-                if abi_name == "spec":
-                    res["st"]["structs"] += 1
-                    res["shapes"].add(tuple(f[0] + (":" + str(f[1]) if f[0] in ("prim", "slice") else (":" + f[1][0] if f[0] == "opt" else "")) for f in fields))
-                sps = slice_paths(structs, k, layout)
-                for j, v in enumerate(values[k]):
-                    cid = "S%d#%d" % (k, j)
-                    r = recs[cid]
-                    w = {"abi": abi_name, "struct": "S%d" % k, "rust": "pub struct S%d { %s }" % (k, ", ".join("f%d: %s" % (i, rs_field_ty(structs, f, False)) for i, f in enumerate(fields))),
-                         "value_js": js_lit(structs, ("struct", k), v), "rustc_layout": {"size": lay["size"], "align": lay["align"], "fields(offset,size,align)": lay["fields"]},
-                         "rustc_bytes": lay["values"][j], "dir": out}
-                    if "error" in r:
-                        res["viol"].append((cid, abi_name, "generated JS throws: " + r["error"][:300], w))
-                        continue
-                    if abi_name == "spec":
-                        res["st"]["values"] += 1
-                    # ---- JS -> Rust
-                    t = r.get("take")
-                    direct_param = (abi[k]["param"] == "direct")      # real wasm32 (spec) convention; the legacy doc states the same single-scalar rule
-                    direct_ret = (abi[k]["ret"] == "direct")
-                    if not t:
-                        res["viol"].append((cid, abi_name, "the export Hub_take%d was never called" % k, w))
-                    elif abi_name == "spec" and direct_param:
-                        res["st"]["write_checks_spec"] += 1
-                        sc = scalar_return(structs, k, layout, lay["values"][j])
-                        got1 = t["args"][1:]
-                        alloc_ptrs = [a[0] for a in r["take_allocs"]]
-                        if len(got1) == 1 and got1[0] in alloc_ptrs and (sc is None or got1[0] != sc):
-                            res["viol"].append((cid, abi_name, "JS -> Rust: rustc passes this single-scalar struct by value (one wasm scalar), the generated JS passes a pointer to a %s-byte buffer" % (
-                                [a[1] for a in r["take_allocs"] if a[0] == got1[0]][0]), dict(w, js_args=got1, rustc_convention=abi[k]), "scalar-struct-indirect"))
-                        elif len(got1) != 1:
-                            res["viol"].append((cid, abi_name, "JS -> Rust: %d arguments passed for a struct rustc takes as one scalar" % len(got1), dict(w, js_args=got1)))
-                        else:
-                            gv = got1[0]
-                            g = int(gv[4:]) if isinstance(gv, str) and gv.startswith("big:") else (int(gv) if isinstance(gv, bool) else gv)
-                            want = int(sc) if isinstance(sc, str) else sc
-                            okv = (g == want) if isinstance(want, float) else (isinstance(g, (int, float)) and int(g) & 0xFFFFFFFFFFFFFFFF == int(want) & 0xFFFFFFFFFFFFFFFF) or \
-                                (isinstance(g, (int, float)) and int(g) & 0xFFFFFFFF == int(want) & 0xFFFFFFFF and abs(int(want)) < (1 << 32))
-                            if isinstance(want, float):
-                                import struct as st_
-                                okv = g == want or st_.unpack("<f", st_.pack("<f", g))[0] == want
-                            if not okv:
-                                res["viol"].append((cid, abi_name, "JS -> Rust: scalar argument is %r, rustc's value is %r" % (gv, sc), dict(w, js_args=got1)))
-                    elif abi_name == "spec":
-                        res["st"]["write_checks_spec"] += 1
-                        if "bytes" not in t or t.get("ptr") not in [a[0] for a in r["take_allocs"]]:
-                            res["viol"].append((cid, abi_name, "JS -> Rust: rustc takes this struct indirectly (pointer to its bytes), the generated JS passes %s" % t["args"][1:], dict(w, rustc_convention=abi[k])))
-                            continue
-                        errs = compare_bytes(structs, k, layout, v, t["bytes"], lay["values"][j])
-                        for (off, esz, p, f), (sp, sl, sdata) in zip(sps, t["slices"]):
-                            want = slice_bytes(f, value_at(v, p)).hex()
-                            if sl and sdata != want:
-                                errs.append("slice f%s: memory at the written pointer holds %s, expected %s" % (p, sdata[:40], want[:40]))
-                        al = [a for a in r["take_allocs"] if a[0] == t["ptr"]]
-                        if not al or al[0][1] != lay["size"] or al[0][2] != lay["align"]:
-                            errs.append("argument buffer allocated as (size, align) = %s, rustc says (%d, %d)" % (al[0][1:] if al else None, lay["size"], lay["align"]))
-                        if al and [f for f in r["take_frees"] if f[0] == t["ptr"]] != [[t["ptr"], lay["size"], lay["align"]]]:
-                            errs.append("argument buffer freed as %s" % [f for f in r["take_frees"] if f[0] == t["ptr"]])
-                        w2 = dict(w, js_bytes=t["bytes"])
-                        for m in errs[:2]:
-                            res["viol"].append((cid, abi_name, "JS -> Rust: " + m, w2))
-                    else:
-                        res["st"]["flatten_checks_legacy"] += 1
-                        exp = expected_scalar_args(structs, k, layout, v, lay["values"][j])
-                        got = t["args"][1:]
-                        w2 = dict(w, js_args=got, model_args=[list(x) for x in exp])
-                        if len(got) != len(exp):
-                            res["viol"].append((cid, abi_name, "JS -> Rust: %d flattened arguments passed, the legacy wasm ABI takes %d (%s)" % (len(got), len(exp), [x[0] for x in exp]), w2))
-                        else:
-                            for (path, ev), gv in zip(exp, got):
-                                if path == "pad" or ev == "anyptr":
-                                    continue
-                                import struct as st_
-                                if isinstance(ev, tuple) and ev[0] == "f32":
-                                    ok = isinstance(gv, (int, float)) and (st_.unpack("<f", st_.pack("<f", gv))[0] == ev[1] or (gv != gv and ev[1] != ev[1]))
-                                elif isinstance(ev, tuple) and ev[0] == "int":
-                                    g = gv
-                                    if isinstance(gv, str) and gv.startswith("big:"):
-                                        g = int(gv[4:])
-                                    elif isinstance(gv, bool):
-                                        g = int(gv)
-                                    ok = (isinstance(g, int) or (isinstance(g, float) and g == int(g))) and (int(g) & ((1 << (8 * ev[1])) - 1)) == ev[2]
-                                else:
-                                    ok = (gv == ev) or (ev != ev and gv != gv)
-                                if not ok:
-                                    res["viol"].append((cid, abi_name, "JS -> Rust: flattened argument for %s is %r, rustc's value is %r" % (path, gv, ev), w2))
-                                    break
-                    # ---- Rust -> JS
-                    res["st"]["read_checks"] += 1
-                    expj = js_expected(structs, ("struct", k), v)
-                    res["st"]["receive_buffers_checked"] += 1
-                    ga = [a for a in r.get("give_allocs", []) if a[0] == r.get("give_retptr")]
-                    if direct_ret and not r.get("give_direct"):
-                        res["viol"].append((cid, abi_name, "Rust -> JS: rustc returns this single-scalar struct by value, the generated JS passes a %s-byte receive buffer as an extra first argument" % (
-                            ga[0][1] if ga else "?"), dict(w, rustc_convention=abi[k]), "scalar-struct-indirect"))
-                        continue
-                    if not direct_ret and r.get("give_direct"):
-                        res["viol"].append((cid, abi_name, "Rust -> JS: rustc returns this struct through a return slot, the generated JS passes none", dict(w, rustc_convention=abi[k])))
-                        continue
-                    if not same(r.get("give"), expj):
-                        tag = None
-                        if direct_ret and len(fields) == 1:
-                            leaf = fields[0]
-                            while leaf[0] == "struct" and len(structs[leaf[1]]) == 1:
-                                leaf = structs[leaf[1]][0]
-                            gv = r.get("give")
-                            while isinstance(gv, dict) and len(gv) == 1:
-                                gv = list(gv.values())[0]
-                            if leaf == ("prim", "bool") and gv in (0, 1):
-                                tag = "scalar-bool"
-                            elif leaf[0] == "prim" and leaf[1] in ("u32", "usize", "DiplomatChar") and isinstance(gv, int) and gv < 0:
-                                tag = "large-u32"
-                            elif leaf == ("prim", "u64") and isinstance(gv, str) and gv.startswith("big:-"):
-                                tag = "large-u64"
-                        res["viol"].append((cid, abi_name, "Rust -> JS: reading rustc's bytes gives %s, the stored value is %s" % (json.dumps(r.get("give"))[:300], json.dumps(expj)[:300]), w, tag))
-                    if not direct_ret and (not ga or ga[0][1] != lay["size"] or ga[0][2] != lay["align"]):
-                        res["viol"].append((cid, abi_name, "Rust -> JS: receive buffer allocated as (size, align) = %s, rustc says (%d, %d)" % (ga[0][1:] if ga else None, lay["size"], lay["align"]), w))
-            # ---- Option<T> parameters and returns
-            for j, inner in enumerate(pls):
-                ol = olayout["O%d" % j]
-                isz = ol["inner_size"]
-                for vi, v in enumerate(ovalues[j]):
-                    r = orecs["O%d#%d" % (j, vi)]
-                    ty = rs_field_ty(structs, inner, False)
-                    w = {"abi": abi_name, "method": "fn opt%d(&self, x: Option<%s>) -> Option<%s>" % (j, ty, ty), "value_js": "null" if v is None else js_lit(structs, inner, v[1]),
-                         "rustc_layout": {k2: ol[k2] for k2 in ("size", "align", "inner_size")}, "rustc_bytes": ol["values"][vi], "dir": out}
-                    res["st"]["option_param_checks"] += 1
-                    if "error" in r:
-                        res["viol"].append(("O%d#%d" % (j, vi), abi_name, "generated JS throws: " + r["error"][:300], w, "option-param" if abi_name == "spec" else None))
-                        continue
-                    ref = ol["values"][vi]
-                    if abi_name == "spec":
-                        if "bytes" not in r:
-                            res["viol"].append(("O%d#%d" % (j, vi), abi_name, "JS -> Rust: Option<%s> is passed indirectly by rustc (pointer to {payload, is_ok}); the generated JS passes %r as that argument" % (
-                                ty, (r.get("args") or [None, None, None])[2] if len(r.get("args") or []) > 2 else r.get("args")), dict(w, js_args=r.get("args")), "option-param"))
-                        else:
-                            errs = []
-                            if r["bytes"][2 * isz:2 * isz + 2] != ref[2 * isz:2 * isz + 2]:
-                                errs.append("is_ok byte at offset %d is %s, rustc has %s" % (isz, r["bytes"][2 * isz:2 * isz + 2], ref[2 * isz:2 * isz + 2]))
-                            if v is not None and inner[0] != "struct" and r["bytes"][:2 * isz] != ref[:2 * isz]:
-                                errs.append("payload bytes are %s, rustc has %s" % (r["bytes"][:2 * isz], ref[:2 * isz]))
-                            if v is not None and inner[0] == "struct":
-                                errs += compare_bytes(structs, inner[1], layout, v[1], r["bytes"], ref)
-                            al = [a for a in r["allocs"] if a[0] == r["ptr"]]
-                            if not al or al[0][1] < ol["size"] or al[0][2] != ol["align"]:
-                                errs.append("argument buffer allocated as (size, align) = %s, the option needs (%d, %d)" % (al[0][1:] if al else None, ol["size"], ol["align"]))
-                            for m in errs[:2]:
-                                res["viol"].append(("O%d#%d" % (j, vi), abi_name, "JS -> Rust: Option<%s>: %s" % (ty, m), dict(w, js_bytes=r["bytes"]), "option-param"))
-                    else:
-                        # legacy: union as inner_size/align slots of `align` bytes, then the flag, then i8 padding
-                        import struct as st_
-                        raw = bytes.fromhex(ref)
-                        al_ = ol["align"]
-                        exp = [int.from_bytes(raw[q:q + al_], "little") for q in range(0, isz, al_)] + [raw[isz]] + [0] * (ol["size"] - isz - 1)
-                        got = (r.get("args") or [])[2:]
-                        gnorm = []
-                        for gv in got:
-                            g = int(gv[4:]) if isinstance(gv, str) and gv.startswith("big:") else (int(gv) if isinstance(gv, bool) else gv)
-                            gnorm.append(g)
-                        ok = len(gnorm) == len(exp)
-                        if ok and v is not None:
-                            for q, (g, e_) in enumerate(zip(gnorm, exp)):
-                                mask = (1 << (8 * (al_ if q < isz // al_ else 1))) - 1
-                                if not isinstance(g, (int, float)) or (int(g) & mask) != e_:
-                                    ok = q >= isz // al_ + 1   # padding values do not matter
-                                    if not ok:
-                                        break
-                        elif ok:
-                            ok = isinstance(gnorm[isz // al_], (int, float)) and int(gnorm[isz // al_]) == 0
-                        if not ok:
-                            res["viol"].append(("O%d#%d" % (j, vi), abi_name, "JS -> Rust: Option<%s> flattened as %s, the legacy ABI takes %s (union slots, flag, i8 padding)" % (ty, got, exp), w))
-                    # return direction
-                    expj = None if v is None else js_expected(structs, inner, v[1])
-                    if not same(r.get("got"), expj):
-                        res["viol"].append(("O%d#%d" % (j, vi), abi_name, "Rust -> JS: Option<%s> read back as %s, the stored value is %s" % (ty, json.dumps(r.get("got"))[:200], json.dumps(expj)[:200]), w))
-                    ga = [a for a in r.get("allocs", []) if a[0] == r.get("retptr")]
-                    # observation, not part of the property (which speaks of structs): the backend sizes this buffer as payload + 1 without
-                    # padding to the alignment (Option<u32>: 5 bytes for an 8-byte value); only the part JS reads is required here
-                    if not ga or ga[0][1] < isz + 1 or ga[0][2] != ol["align"]:
-                        res["viol"].append(("O%d#%d" % (j, vi), abi_name, "Rust -> JS: Option<%s> receive buffer allocated as %s, too small or misaligned for (payload %d + flag, align %d)" % (ty, ga[0][1:] if ga else None, isz, ol["align"]), w))
-        return res
-
-    def same(a, b):
-        if isinstance(b, float) and isinstance(a, (int, float)):
-            return a == b or (a != a and b != b)
-        if isinstance(b, dict):
-            return isinstance(a, dict) and set(a) == set(b) and all(same(a[k], b[k]) for k in b)
-        if isinstance(b, list):
-            return isinstance(a, list) and len(a) == len(b) and all(same(x, y) for x, y in zip(a, b))
-        if isinstance(b, bool) or isinstance(a, bool):
-            return a is b or a == b and type(a) == type(b)
-        return a == b
-
-    results = pmap(one, range(nbatch))
+    results = pmap(lambda bi: run_batch("c08/%s" % seed, bi, per, nval), range(nbatch))
     for bi, r in enumerate(results):
         for k, v in r["st"].items():
             stats[k] += v
